@@ -7,6 +7,53 @@ fn parse_list(s: &str) -> Vec<usize> {
     s.split(',').filter(|x| !x.is_empty()).map(|x| x.parse().unwrap()).collect()
 }
 
+/// Reader that hands out at most `step` bytes per call.
+struct Dribble<'a> {
+    data: &'a [u8],
+    step: usize,
+}
+
+impl std::io::Read for Dribble<'_> {
+    fn read(&mut self, buf: &mut [u8]) -> std::io::Result<usize> {
+        let n = buf.len().min(self.step).min(self.data.len());
+        buf[..n].copy_from_slice(&self.data[..n]);
+        self.data = &self.data[n..];
+        Ok(n)
+    }
+}
+
+/// C06 replay: the records StreamReader yields for `input` under several block sizes / read sizes.
+fn stream_side(input: &[u8], max_size: Option<usize>, limit: Option<u64>) {
+    for block in [None, Some(0usize), Some(1), Some(2), Some(3), Some(4), Some(5), Some(7)] {
+        for step in [usize::MAX, 1, 2, 3] {
+            let res = std::panic::catch_unwind(|| {
+                let judge = hcobs::StreamReader::chunk_judge(max_size.unwrap_or(usize::MAX), limit);
+                let mut src = Dribble { data: input, step };
+                let mut reader = hcobs::StreamReader::new();
+                let mut out = Vec::new();
+                for _ in 0..(input.len() + 4) {
+                    match reader.next_record_bytes(&mut src, &judge, block) {
+                        Ok(Some((iov, range))) => out.push((iov.flatten().expect("no backpatch"), range.start, range.end)),
+                        Ok(None) => return Some(out),
+                        Err(_) => return None,
+                    }
+                }
+                Some(out)
+            });
+            let text = match res {
+                Err(_) => "PANIC".to_string(),
+                Ok(None) => "IOERR".to_string(),
+                Ok(Some(recs)) => recs
+                    .iter()
+                    .map(|(b, s, e)| format!("{}-{}:{}", s, e, b.iter().map(|x| x.to_string()).collect::<Vec<_>>().join(".")))
+                    .collect::<Vec<_>>()
+                    .join(";"),
+            };
+            println!("STREAM block={:?} step={} => {}", block, step, text);
+        }
+    }
+}
+
 fn main() {
     let args: Vec<String> = std::env::args().collect();
     let side = args[1].clone();
@@ -15,6 +62,11 @@ fn main() {
         None => args[2].clone(),
     };
     let input: Vec<u8> = parse_list(text.trim()).into_iter().map(|x| x as u8).collect();
+    if side == "stream" {
+        let opt = |s: &str| if s == "none" { None } else { Some(s.parse::<u64>().unwrap()) };
+        stream_side(&input, opt(&args[3]).map(|x| x as usize), opt(&args[4]));
+        return;
+    }
     let mut cuts = parse_list(&args[3]);
     cuts.push(input.len());
     let methods: Vec<String> = args[4].split(',').map(|s| s.to_string()).collect();
